@@ -7,10 +7,11 @@ two fields (`data` = `_data`, `array` = `_array`) plus `lengths`, exactly re-syn
 way each writer does it (`self.__init__(self._array)` = `initRows`, or
 `self._array = np.array(partition_list(self._data, self.lengths))` = `rebuild`).
 
-The model is parametrised by `Cfg`: which of the three proposed repairs is present in the tree
-that is being checked.  `Cfg.asIs` is `/repo` HEAD; the flags switch, function by function,
+The model is parametrised by `Cfg`: which of the proposed repairs is present in the tree
+that is being checked.  `Cfg.current` is `/repo` HEAD (all four repairs committed);
+`Cfg.asIs` / `Cfg.beforeC06` are older variants; the flags switch, function by function,
 to the patched text of `/tmp/fix-proposals/{C05-ra-reads,C06-setitem-row-views,C06-array-row-views,C06-append-flat-row}.diff`.
-The harness finds out which variant it is looking at by probing the staged code.
+The harness holds the staged code to `Cfg.current` (and probes that every repair is in effect).
 
 Self-contained on purpose (`Model/Ragged.lean` of C05 models the read side).
 Elements are an arbitrary type `α`; arithmetic is passed in as functions.
@@ -32,8 +33,13 @@ structure Cfg where
   appendFix : Bool     -- C06-append-flat-row.diff
   deriving Repr, DecidableEq
 
-def Cfg.asIs : Cfg := ⟨false, false, false, false⟩
-def Cfg.fixed : Cfg := ⟨true, true, true, true⟩
+/-- `/repo` HEAD: all four repairs are committed (`fix:` commits of C05-ra-reads, C06-setitem-row-views,
+C06-append-flat-row, C06-array-row-views) -/
+def Cfg.current : Cfg := ⟨true, true, true, true⟩
+abbrev Cfg.fixed : Cfg := Cfg.current
+/-- older variants, kept only to state what the repairs changed -/
+def Cfg.asIs : Cfg := ⟨false, false, false, false⟩          -- before the read-side repair
+def Cfg.beforeC06 : Cfg := ⟨true, false, false, false⟩      -- read-side repair only
 
 variable {α : Type}
 
